@@ -53,7 +53,8 @@ theorem guarded_reject (inv : Inv) (g : Guard) (required : Addr) (due : Bool) (b
     (hw : checkWitness s.signers s.contexts required = false) (hd : ¬ (g = .operatorOrDue ∧ due = true)) :
     (runProg leafHash inv (guarded g required due body) s).1 = none ∧
     (runProg leafHash inv (guarded g required due body) s).2.effLog = s.effLog ∧
-    (runProg leafHash inv (guarded g required due body) s).2.cache = s.cache := by
+    (runProg leafHash inv (guarded g required due body) s).2.cache = s.cache ∧
+    (runProg leafHash inv (guarded g required due body) s).2.panicked = s.panicked := by
   rw [guarded_eq g required due body hg]
   simp only [runProg, hw, Bool.false_or]
   have : (g == Guard.operatorOrDue && due) = false := by
@@ -66,7 +67,8 @@ theorem invokeBody_guarded (inv : Inv) (s : Svc) (sm : List (Bytes × Handler)) 
     (g : Guard) (req : Bytes → Addr) (due : Bool) (body : Bytes → Prog) (hg : g ≠ .none) :
     (∀ r s', invokeBody leafHash inv s sm addr args (fun a => guarded g (req a) due (body a)) = (.ok r, s') →
         checkWitness s.signers (s.contexts ++ [addr]) (req args) = true ∨ (g = .operatorOrDue ∧ due = true)) ∧
-    (¬ s.contexts.length > maxContextLen → checkWitness s.signers (s.contexts ++ [addr]) (req args) = false →
+    (¬ s.contexts.length > maxContextLen → s.panicked = false →
+        checkWitness s.signers (s.contexts ++ [addr]) (req args) = false →
         ¬ (g = .operatorOrDue ∧ due = true) →
         (invokeBody leafHash inv s sm addr args (fun a => guarded g (req a) due (body a))).1 = .err ∧
         (invokeBody leafHash inv s sm addr args (fun a => guarded g (req a) due (body a))).2.effLog = s.effLog ∧
@@ -79,11 +81,11 @@ theorem invokeBody_guarded (inv : Inv) (s : Svc) (sm : List (Bytes × Handler)) 
     · generalize hq : runProg leafHash inv (guarded g (req args) due (body args)) (enter s sm addr args) = q at h
       obtain ⟨o, s3⟩ := q
       cases o with
-      | none => cases h
+      | none => simp only at h; split at h <;> cases h
       | some v =>
         have := guarded_ok leafHash inv g (req args) due (body args) hg (enter s sm addr args) v s3 hq
         simpa [enter] using this
-  · intro hlen hw hd
+  · intro hlen hnp hw hd
     have hr := guarded_reject leafHash inv g (req args) due (body args) hg (enter s sm addr args)
       (by simpa [enter] using hw) hd
     unfold invokeBody
@@ -91,9 +93,10 @@ theorem invokeBody_guarded (inv : Inv) (s : Svc) (sm : List (Bytes × Handler)) 
     generalize hq : runProg leafHash inv (guarded g (req args) due (body args)) (enter s sm addr args) = q at hr
     obtain ⟨o, s3⟩ := q
     simp only at hr
-    obtain ⟨h1, h2, h3⟩ := hr
+    obtain ⟨h1, h2, h3, h4⟩ := hr
     subst h1
-    exact ⟨rfl, by simpa [enter] using h2, by simpa [enter] using h3⟩
+    have h5 : s3.panicked = false := by rw [h4]; simpa [enter] using hnp
+    exact ⟨by simp [h5], by simpa [enter] using h2, by simpa [enter] using h3⟩
 
 /-- At the top level (empty context stack) only signers count. -/
 theorem checkWitness_toplevel (signers : List Addr) (addr a : Addr) :
